@@ -113,22 +113,26 @@ _RES = re.compile(r'=\s*"((?:[^"]|"")*)"\s*:\s*string', re.S)
 
 
 def run_case_shards(prop: str, corr_module: str, case_lits, shard_size=200, run_fn="run",
-                    header_extra="", max_bytes=120_000):
+                    header_extra="", max_bytes=120_000, units=None):
     """Writes shards of Coq case literals, evaluates `run_fn` on each with vm_compute, and returns
     the concatenated verdict string (one character per case) plus bookkeeping."""
     wdir = WORK / prop / "cases"
     if wdir.exists():
         shutil.rmtree(wdir)
     wdir.mkdir(parents=True)
-    shards, cur, cur_bytes = [], [], 0
-    for lit in case_lits:
+    units = list(units) if units is not None else [1] * len(case_lits)
+    shards, shard_units, cur, cur_bytes, cur_units = [], [], [], 0, 0
+    for lit, u in zip(case_lits, units):
         if cur and (len(cur) >= shard_size or cur_bytes + len(lit) > max_bytes):
             shards.append(cur)
-            cur, cur_bytes = [], 0
+            shard_units.append(cur_units)
+            cur, cur_bytes, cur_units = [], 0, 0
         cur.append(lit)
         cur_bytes += len(lit)
+        cur_units += u
     if cur:
         shards.append(cur)
+        shard_units.append(cur_units)
     files = []
     for k, sh in enumerate(shards):
         f = wdir / ("cases_%03d.v" % k)
@@ -148,16 +152,16 @@ def run_case_shards(prop: str, corr_module: str, case_lits, shard_size=200, run_
 
     verdicts, errors = [], []
     with concurrent.futures.ThreadPoolExecutor(max_workers=NCPU) as ex:
-        for (f, r), sh in zip(ex.map(one, files), shards):
+        for (f, r), nunits in zip(ex.map(one, files), shard_units):
             m = _RES.search(r.stdout)
             if r.returncode != 0 or not m:
                 errors.append({"file": str(f), "rc": r.returncode, "out": (r.stdout + r.stderr)[-1500:]})
-                verdicts.append("?" * len(sh))
+                verdicts.append("?" * nunits)
             else:
                 v = re.sub(r"\s", "", m.group(1))
-                if len(v) != len(sh):
-                    errors.append({"file": str(f), "rc": 0, "out": "verdict length %d != %d" % (len(v), len(sh))})
-                    v = "?" * len(sh)
+                if len(v) != nunits:
+                    errors.append({"file": str(f), "rc": 0, "out": "verdict length %d != %d" % (len(v), nunits)})
+                    v = "?" * nunits
                 verdicts.append(v)
     return "".join(verdicts), {"shards": len(shards), "shard_errors": errors,
                                "cmd": "coqc -q -Q %s Verif %s/cases_*.v  (Eval vm_compute in (%s cases))" % (COQ, wdir, run_fn)}
